@@ -13,7 +13,7 @@ func init() {
 	Registry["C13"] = c13
 	Metas["C13"] = Meta{Level: "other", NeedCG: true,
 		Technique: "static analysis: edge-dominance of verify-before-execute in the sync loop, closure free-variable provenance of the verifier's validator set, sibling commit-path order, nil-ness obligations on the peer-supplied commit",
-		Explain: "Static analysis of fast sync. Decided: (R1) in poolRoutine the executor call and PopRequest are edge-dominated by a nil result of the verifier called with BlockID{first.Hash(), parts header of first}, first.Height and second.LastCommit of the same peeked pair, and the error edge re-requests the block; (R2) the verifier closure installed in BFT mode reads stateM.Validators and stateM.ChainID inside the closure (no captured snapshot) and the executor closure applies blocks to that same stateM; (R3) the executor performs SaveBlock < ApplyBlock < Save (C06-R2) and ApplyBlock re-validates the block (C02-R3); (R4) the peer-supplied commit is nil-checked before it is dereferenced and the commit accessors tolerate a commit whose precommits are all nil; (R6) VerifyCommit's guard list (shared with C02-R4); (R5) a block is accepted into the pool only from the peer it was requested from and only once. NOT decided: equality of the end state with live consensus; behaviour under peer timeouts.",
+		Explain: "Static analysis of fast sync. Decided: (R1) in poolRoutine the executor call and PopRequest are edge-dominated by a nil result of the verifier called with BlockID{first.Hash(), parts header of first}, first.Height and second.LastCommit of the same peeked pair, and the error edge re-requests the block; (R2) the verifier closure installed in BFT mode reads stateM.Validators and stateM.ChainID inside the closure (no captured snapshot) and the executor closure applies blocks to that same stateM; (R3) the executor performs SaveBlock < ApplyBlock < Save (C06-R2) and ApplyBlock re-validates the block (C02-R3); (R4) the peer-supplied commit is nil-checked before it is dereferenced and the commit accessors tolerate a commit whose precommits are all nil; (R6) VerifyCommit's guard list (shared with C02-R4); (R5) a block is accepted into the pool only from the peer it was requested from and only once. (R7) the requester's block and peer id are read only under its mutex (they are reset asynchronously when the serving peer goes away). NOT decided: equality of the end state with live consensus; behaviour under peer timeouts.",
 		Assume: []string{"VerifyCommit is correct (C02-R4/C15-R7)"},
 	}
 }
